@@ -65,7 +65,10 @@ func setSeg(m protoreflect.Message, name string, s vmsaref.SegVal, sel, attr uin
 }
 
 // randVmsa builds an in-range save area; nil segments and absent reserved fields occur.
-func randVmsa(q *x) (*spb.VmcbSaveArea, vmsaValue, bool) {
+func randVmsa(q *x) (*spb.VmcbSaveArea, vmsaValue, bool) { return randVmsaP(q, 8) }
+
+// randVmsaP leaves each segment register out with probability 1/absentIn.
+func randVmsaP(q *x, absentIn int) (*spb.VmcbSaveArea, vmsaValue, bool) {
 	v := &spb.VmcbSaveArea{}
 	m := v.ProtoReflect()
 	want := vmsaValue{ints: map[string]uint64{}, segs: map[string]vmsaref.SegVal{}}
@@ -74,7 +77,7 @@ func randVmsa(q *x) (*spb.VmcbSaveArea, vmsaValue, bool) {
 	for k, f := range vmsaref.Table {
 		switch f.Kind {
 		case vmsaref.Seg:
-			if q.r.IntN(8) == 0 {
+			if q.r.IntN(absentIn) == 0 {
 				want.segs[f.Name] = vmsaref.SegVal{} // absent segment = all zero
 				continue
 			}
@@ -113,30 +116,163 @@ func zeroReserved(q *x, v *spb.VmcbSaveArea) map[string]bool {
 }
 
 func checkVmsaPage(q *x, page []byte, want vmsaValue, witness any) bool {
+	return checkVmsaPageAs(q, "encoding-differs-from-abi", "", page, want, witness)
+}
+
+// checkVmsaPageAs judges a page under the given rule name; step says where in a call sequence it was written.
+func checkVmsaPageAs(q *x, rule, step string, page []byte, want vmsaValue, witness any) bool {
 	d, err := vmsaref.Decode(page)
 	if err != nil {
 		return false
 	}
-	good := true
-	for name, w := range want.ints {
-		if d.Ints[name] != w {
-			f, _ := vmsaref.Lookup(name)
-			q.viol(entryVmsa, "encoding-differs-from-abi", witness, "VMSA field %s = %#x reads back as %#x at offset %#x (%d bytes)", name, w, d.Ints[name], f.Off, f.Size)
-			good = false
-		}
+	if step != "" {
+		step = " (" + step + ")"
 	}
-	for name, w := range want.segs {
-		if d.Segs[name] != w {
+	good := true
+	names := make([]string, 0, len(want.ints)+len(want.segs))
+	for name := range want.ints {
+		names = append(names, name)
+	}
+	for name := range want.segs {
+		names = append(names, name)
+	}
+	sort.Strings(names) // the first mismatch reported is the same on every run
+	for _, name := range names {
+		if w, isInt := want.ints[name]; isInt {
+			if d.Ints[name] != w {
+				f, _ := vmsaref.Lookup(name)
+				q.viol(entryVmsa, rule, witness, "VMSA field %s = %#x reads back as %#x at offset %#x (%d bytes)%s", name, w, d.Ints[name], f.Off, f.Size, step)
+				good = false
+			}
+			continue
+		}
+		if w := want.segs[name]; d.Segs[name] != w {
 			f, _ := vmsaref.Lookup(name)
-			q.viol(entryVmsa, "encoding-differs-from-abi", witness, "VMSA segment %s = %+v reads back as %+v at offset %#x", name, w, d.Segs[name], f.Off)
+			q.viol(entryVmsa, rule, witness, "VMSA segment %s = %+v reads back as %+v at offset %#x%s", name, w, d.Segs[name], f.Off, step)
 			good = false
 		}
 	}
 	if len(d.NonZero) > 0 {
-		q.viol(entryVmsa, "encoding-differs-from-abi", witness, "VMSA reserved / launch-zero ranges carry non-zero bytes: %v", d.NonZero)
+		q.viol(entryVmsa, rule, witness, "VMSA reserved / launch-zero ranges carry non-zero bytes: %v%s", d.NonZero, step)
 		good = false
 	}
 	return good
+}
+
+// vmsaSequence continues after a successful PutVmsa(v): the caller customises the value it just wrote
+// in place (segment registers through the pointers the value holds by now - PutVmsa fills in the ones
+// that were left out - and a few integer fields), writes it again, writes a second, sparse save area
+// that was never written before, and the first one once more. The bytes of every call must be the ABI
+// encoding of the value handed to that call; nothing of an earlier call may show.
+func vmsaSequence(q *x, v *spb.VmcbSaveArea, want vmsaValue, size int) {
+	c := q.c
+	m := v.ProtoReflect()
+	before, _ := proto.Marshal(v)
+	var segNames, leftOut, intNames []string
+	for _, f := range vmsaref.Table {
+		switch f.Kind {
+		case vmsaref.Seg:
+			segNames = append(segNames, f.Name)
+			if want.segs[f.Name] == (vmsaref.SegVal{}) {
+				leftOut = append(leftOut, f.Name)
+			}
+		case vmsaref.Int:
+			intNames = append(intNames, f.Name)
+		}
+	}
+	var edits []string
+	for k := 1 + q.r.IntN(3); k > 0; k-- {
+		name := segNames[q.r.IntN(len(segNames))]
+		if len(leftOut) > 0 && q.r.IntN(2) == 0 {
+			name = leftOut[q.r.IntN(len(leftOut))]
+		}
+		fd := m.Descriptor().Fields().ByName(protoreflect.Name(name))
+		if fd == nil || fd.Kind() != protoreflect.MessageKind {
+			return
+		}
+		seg, ok := m.Mutable(fd).Message().Interface().(*spb.VmcbSeg) // the segment the value holds, made if there is none
+		if !ok {
+			return
+		}
+		switch q.r.IntN(4) {
+		case 0:
+			seg.Base = pick(q.r, 8) | 1
+		case 1:
+			seg.Base, seg.Limit = pick(q.r, 8), uint32(pick(q.r, 4))|1
+		case 2:
+			seg.Selector = uint32(pick(q.r, 2)) | 1
+		default:
+			seg.Selector, seg.Attrib, seg.Limit, seg.Base = uint32(pick(q.r, 2)), uint32(pick(q.r, 2))|1, uint32(pick(q.r, 4)), pick(q.r, 8)
+		}
+		want.segs[name] = vmsaref.SegVal{Selector: uint16(seg.Selector), Attrib: uint16(seg.Attrib), Limit: seg.Limit, Base: seg.Base}
+		edits = append(edits, fmt.Sprintf("%s={sel %#x attr %#x limit %#x base %#x}", name, seg.Selector, seg.Attrib, seg.Limit, seg.Base))
+	}
+	for k := q.r.IntN(3); k > 0; k-- {
+		name := intNames[q.r.IntN(len(intNames))]
+		f, _ := vmsaref.Lookup(name)
+		x := pick(q.r, f.Size)
+		if !setField(m, name, x) {
+			return
+		}
+		want.ints[name] = x
+		edits = append(edits, fmt.Sprintf("%s=%#x", name, x))
+	}
+	witness := map[string]any{"vmcb_save_area_proto_at_first_call": hx(before), "edits_in_place_after_first_call": edits}
+	page := bytes.Repeat([]byte{canary}, size)
+	var err error
+	if !q.must(entryVmsa, func() { err = sev.PutVmsa(v, page) }) {
+		return
+	}
+	good := true
+	if err != nil {
+		q.viol(entryVmsa, "in-range-value-refused", witness, "PutVmsa refuses an in-range save area that it wrote before and that was then edited in place (%v): %v", edits, err)
+		return
+	}
+	good = checkVmsaPageAs(q, "encoding-after-in-place-edit-differs-from-abi", "second write of a value after the caller edited it in place: "+fmt.Sprint(edits), page, want, witness) && good
+	// a second save area, never written before, with many registers left out (sometimes all of them)
+	absentIn := []int{1, 2, 2, 4}[q.r.IntN(4)]
+	b, wantB, ok := randVmsaP(q, absentIn)
+	if !ok {
+		return
+	}
+	if q.r.IntN(4) == 0 {
+		b, wantB = &spb.VmcbSaveArea{}, vmsaValue{ints: map[string]uint64{}, segs: map[string]vmsaref.SegVal{}}
+		for _, n := range segNames {
+			wantB.segs[n] = vmsaref.SegVal{}
+		}
+		for _, n := range intNames {
+			wantB.ints[n] = 0
+		}
+	}
+	wireB, _ := proto.Marshal(b)
+	witness["second_save_area_proto"] = hx(wireB)
+	pageB := bytes.Repeat([]byte{canary}, size)
+	if !q.must(entryVmsa, func() { err = sev.PutVmsa(b, pageB) }) {
+		return
+	}
+	if err != nil {
+		q.viol(entryVmsa, "in-range-value-refused", witness, "PutVmsa refuses an in-range save area: %v", err)
+		return
+	}
+	good = checkVmsaPageAs(q, "encoding-depends-on-earlier-calls", "a save area written for the first time, after another one was written, edited in place and written again", pageB, wantB, witness) && good
+	if !allEq(pageB[vmsaref.Size:], canary) {
+		q.viol(entryVmsa, "wrote-beyond-abi-size", witness, "PutVmsa wrote behind offset %#x", vmsaref.Size)
+	}
+	// the first value once more, unchanged since its last write
+	page3 := bytes.Repeat([]byte{canary}, size)
+	if !q.must(entryVmsa, func() { err = sev.PutVmsa(v, page3) }) {
+		return
+	}
+	if err != nil || !bytes.Equal(page3, page) {
+		good = false
+		q.viol(entryVmsa, "encoding-depends-on-earlier-calls", witness, "the same unchanged save area is written differently (err=%v) after another save area was written in between", err)
+	}
+	if good {
+		seen("encoding-independent-of-earlier-calls")
+		seen("vmsa-call-sequence-checked")
+		c.Cell("VMSA|written, edited in place (%d registers were left out), written again|only the edited fields change", min(len(leftOut), 3))
+		c.Cell("VMSA|sparse save area written after other writes (1 in %d registers left out)|encoding of that value alone", absentIn)
+	}
 }
 
 func caseVmsaValues(q *x) {
@@ -231,6 +367,7 @@ func caseVmsaValues(q *x) {
 		seen("vmsa-all-fields-decoded")
 		c.Cell("VMSA|encode|%d fields at APM offsets, reserved and tail zero", len(want.ints)+len(want.segs))
 	}
+	vmsaSequence(q, v, want, size)
 }
 
 func caseVmsaReserved(q *x) {
